@@ -97,7 +97,7 @@ def run(ctx):
                 ok = vec_ok and idx_ok
                 detail = "vector is the result vector: %s, index is idx-1: %s (%s)" % (vec_ok, idx_ok, M.term_str(i)[:120])
         ctx.ob("R13.1", "stage-stdin=ret[idx-1].stdout.take()", ok, pp.loc(bb), "stage stdin must be the read end taken out of the previous stage: " + detail)
-        e = bool_edges(pp, T, lambda c: c[0] == "bin" and c[1] == "Ne" and is_idx(c[2]) and const_of(c[3]) == 0, True)
+        e, _ = cond_edges(pp, T, lambda c: (1 if c[1] == "Ne" else -1) if (c[0] == "bin" and c[1] in ("Ne", "Eq") and is_idx(c[2]) and const_of(c[3]) == 0) else 0)
         ctx.ob("R13.1", "stage-stdin.under-idx!=0", dominated_by_edges(pp, bb, e, start=nxt[0][0]), pp.loc(bb), "the hand-over applies to every stage but the first (guard idx != 0)")
     # stdout = Pipe for all but the last
     so = [(bb, t) for bb, t in pp.calls(loop) if M.callee_str(t["f"]) == "builder::exec::Exec::stdout"]
@@ -107,16 +107,19 @@ def run(ctx):
         a = T.operand(t["args"][1])
         ctx.ob("R13.1", "stage-stdout=Pipe", a == ("agg", ("adt", "popen::Redirection", "Pipe"), ()), pp.loc(bb), "intermediate stdout = %s (must be Redirection::Pipe)" % M.term_str(a))
 
-        def is_last_cmp(c):
-            if not (c[0] == "bin" and c[1] == "Ne" and is_idx(c[2])):
-                return False
+        def last_atom(c):
+            """+1: `idx != cnt - 1`, -1: `idx == cnt - 1`"""
+            if not (c[0] == "bin" and c[1] in ("Ne", "Eq") and is_idx(c[2])):
+                return 0
             r = c[3]
             r = r[1] if r[0] == "field" else r
             if not (r[0] == "bin" and r[1] in ("Sub", "SubWithOverflow") and const_of(r[3]) == 1):
-                return False
+                return 0
             l = r[2]
-            return l[0] == "call" and l[1] == "std::vec::Vec::<T, A>::len" and M.noref(l[2][0]) == ("field", selfp, "cmds") and l[3] not in loop
-        e = bool_edges(pp, T, is_last_cmp, True)
+            if l[0] == "call" and l[1] == "std::vec::Vec::<T, A>::len" and M.noref(l[2][0]) == ("field", selfp, "cmds") and l[3] not in loop:
+                return 1 if c[1] == "Ne" else -1
+            return 0
+        e, _ = cond_edges(pp, T, last_atom)
         ctx.ob("R13.1", "stage-stdout.under-idx!=cnt-1", dominated_by_edges(pp, bb, e, start=nxt[0][0]), pp.loc(bb), "every stage but the last gets stdout = Pipe (guard idx != cnt - 1 with cnt = self.cmds.len() read before the loop)")
     # the final `cnt` must be read after the first/last re-insertion (len unchanged anyway) and before the loop
     pc = [(bb, t) for bb, t in pp.calls(loop) if M.callee_str(t["f"]) == "builder::exec::Exec::popen"]
